@@ -455,3 +455,96 @@ def program(draw, max_sims=8):
     nsim = draw(st.integers(3, max_sims))
     sims = [simulation(draw, M, k, nsim) for k in range(nsim)]
     return {"db": DB, "sims": sims, "feats": sorted(M.feats)}
+
+
+# ----------------------------------------------------------------------------------------------- text layer
+# Documented layout features of PHREEQC input, independent of the chemistry: blank lines, comment-only lines, trailing
+# comments, ';' as line separator, '\' continuation, CRLF line ends, tabs and leading/trailing blanks, a final simulation
+# without END, a text without final newline.  The layout is part of the *text*: whole text and pieces are the same characters.
+LAYOUT_CODES = 12
+
+
+def _layout_lines(lines, pat, off, is_last, feats):
+    """lines: physical lines of one simulation without its END line"""
+    out = []
+    basic = False
+    i = 0
+    n = len(lines)
+    while i < n:
+        l = lines[i]
+        code = pat[(off + i) % len(pat)]
+        s = l.strip()
+        if s == "-start":
+            basic = True
+        data = l.startswith(" ") and not basic and not s.startswith("-")
+        nxt = lines[i + 1] if i + 1 < n else None
+        if code == 3:
+            out.append("")
+            feats.add("layout_blank_line")
+        elif code == 4:
+            out.append("# comment line %d" % i)
+            feats.add("layout_comment_line")
+        elif code == 5:
+            out.append("   \t# indented comment line")
+            feats.add("layout_comment_line")
+        if code == 7 and nxt is not None and not basic and nxt.strip() != "-start":
+            # ';' separates logical lines
+            sep = ";" if i % 2 else " ; "
+            l = l + sep + nxt.lstrip(" ") if i % 3 else l + sep + nxt
+            i += 1
+            feats.add("layout_semicolon")
+        elif code == 8 and data and " " in s and nxt is not None:
+            a, b = s.split(" ", 1)
+            out.append(" " + a + " \\" + ("  " if i % 2 else ""))
+            l = "   " + b
+            feats.add("layout_continuation")
+        elif code == 9 and not basic:
+            l = ("\t" + l.lstrip(" ") if l.startswith(" ") else l).replace(" ", "\t" if i % 2 else "  ") + " \t"
+            feats.add("layout_tabs_blanks")
+        elif code == 10:
+            l = "    " + l + "   "
+            feats.add("layout_tabs_blanks")
+        elif code in (6, 11) and s != "":
+            l = l + ("  # trailing comment" if code == 6 else "\t#c ; USE solution none \\")
+            feats.add("layout_trailing_comment")
+        if s == "-end":
+            basic = False
+        out.append(l)
+        i += 1
+    return out
+
+
+@st.composite
+def layout(draw, sims):
+    """-> (sims with a drawn layout, labels).  Every simulation but the last keeps its END line (the cut points)."""
+    pat = draw(st.lists(st.integers(0, LAYOUT_CODES - 1), min_size=3, max_size=11))
+    crlf = draw(st.integers(0, 3)) == 0
+    ending = draw(st.integers(0, 5))
+    feats = set()
+    out = []
+    off = 0
+    for k, sim in enumerate(sims):
+        lines = sim.split("\n")
+        assert lines[-1] == "" and lines[-2] == "END"
+        body = _layout_lines(lines[:-2], pat, off, k == len(sims) - 1, feats)
+        off += len(lines)
+        last = k == len(sims) - 1
+        if not last or ending == 0:
+            text = "\n".join(body + ["END"]) + "\n"
+        elif ending == 1:
+            text = "\n".join(body + ["END"])
+            feats.add("layout_no_final_newline")
+        else:
+            feats.add("layout_last_simulation_without_END")
+            if ending in (4, 5) and body:
+                body = body[:-1] + (["# comment before the last line"] if ending == 4 else [""]) + body[-1:]
+                feats.add("layout_blank_or_comment_before_unterminated_last_line")
+            text = "\n".join(body) + ("\n" if ending == 2 else "")
+            if ending != 2:
+                feats.add("layout_no_final_newline")
+        if crlf:
+            text = text.replace("\n", "\r\n")
+        out.append(text)
+    if crlf:
+        feats.add("layout_crlf")
+    return out, sorted(feats)
